@@ -25,6 +25,48 @@ PARAMS = {
 SRC_FILE = 'src.txt'           # the only file_dep that is not a target: created by the harness
 
 
+# ---- written forms of a file name (targets / file_dep / command-line words)
+#   'o1.out'            a str, taken literally by doit (selection by target, implicit task_dep and duplicate-target
+#                       detection compare strings: './o1.out' and 'o1.out' are different names)
+#   {'path': './o1.out'} a pathlib.Path in the task dict: doit keeps str(path), i.e. pathlib's normal form 'o1.out'
+#   '@ABS@/o1.out'       absolute spelling; '@ABS@' stands for the directory of the run (substituted when the real task
+#                       dict / argv is built; the model compares the placeholder spelling, the substitution is injective)
+ABS = '@ABS@'
+_ROOT = ['/abs-root-of-the-run']
+
+
+def mstr(entry):
+    """the string doit keeps for a targets / file_dep entry (what the model compares)"""
+    if isinstance(entry, dict):
+        import pathlib
+        return str(pathlib.PurePosixPath(entry['path']))
+    return entry
+
+
+def sub(s):
+    return s.replace(ABS, _ROOT[0]) if isinstance(s, str) else s
+
+
+def unsub(s):
+    return s.replace(_ROOT[0], ABS) if isinstance(s, str) else s
+
+
+def real_entry(entry):
+    """the value put into the real task dict"""
+    if isinstance(entry, dict):
+        import pathlib
+        return pathlib.Path(sub(entry['path']))
+    return sub(entry)
+
+
+def mtargets(d):
+    return [mstr(e) for e in d.get('targets', []) or []]
+
+
+def mfile_dep(d):
+    return [mstr(e) for e in d.get('file_dep', []) or []]
+
+
 def model_param(pname):
     p = PARAMS[pname]
     return {'short': p.get('short', ''), 'long': p.get('long', ''), 'val': p['type'] is not bool}
@@ -60,8 +102,8 @@ def model_tasks(case):
                         'pos_arg': False, 'delayed': True, 'utd': False})
         else:
             res.append({'name': full, 'task_dep': list(d.get('task_dep', [])), 'setup': list(d.get('setup', [])),
-                        'calc_dep': list(d.get('calc_dep', [])), 'file_dep': sorted(d.get('file_dep', [])),
-                        'targets': list(d.get('targets', [])), 'has_subtask': False,
+                        'calc_dep': list(d.get('calc_dep', [])), 'file_dep': sorted(mfile_dep(d)),
+                        'targets': mtargets(d), 'has_subtask': False,
                         'params': [model_param(p) for p in d.get('params', [])], 'pos_arg': bool(d.get('pos_arg')),
                         'delayed': bool(d.get('delayed')), 'utd': bool(d.get('utd'))})
     return res
@@ -81,14 +123,19 @@ def request(case, obs=None):
 def _task_dict(full, d, events):
     def action(**kw):
         events.append(['run', full, {k: kw[k] for k in sorted(kw)}])
-        for tg in d.get('targets', []):
-            with open(tg, 'w') as f:
+        for tg in mtargets(d):
+            with open(sub(tg), 'w') as f:
                 f.write(full)
         return True
     dct = {'actions': [action]}
-    for key in ('task_dep', 'setup', 'calc_dep', 'file_dep', 'targets'):
+    for key in ('task_dep', 'setup', 'calc_dep'):
         if d.get(key):
             dct[key] = list(d[key])
+    for key in ('file_dep', 'targets'):
+        if d.get(key):
+            dct[key] = [real_entry(e) for e in d[key]]
+            if d.get('pathform') == 'tuple':
+                dct[key] = tuple(dct[key])
     if d.get('params'):
         dct['params'] = [dict(PARAMS[p]) for p in d['params']]
     if d.get('pos_arg'):
@@ -137,7 +184,7 @@ def build_namespace(case, events):
 def err_obs(ex):
     name = type(ex).__name__
     if name == 'InvalidCommand' and getattr(ex, 'not_found', None) is not None:
-        return ['notFound', ex.not_found]
+        return ['notFound', unsub(ex.not_found)]
     if name == 'CmdParseError':
         return ['optErr']
     return ['exc', name]
@@ -156,13 +203,15 @@ def impl_control(case):
         tasks = loader.load_tasks(ns, allow_delayed=True)
         tc = TaskControl(tasks)
         out['deps'] = [[t.name, list(t.task_dep)] for t in tasks]
-        sel = list(case['argv']) or case.get('default')        # DoitCmdBase.execute: `args or default_tasks`
+        sel = [sub(a) for a in case['argv']] or case.get('default')   # DoitCmdBase.execute: `args or default_tasks`
+        if sel is not None:
+            sel = [sub(a) for a in sel]
         try:
             tc.process(list(sel) if sel is not None else None)
             out['sel'] = ['ok', list(tc.selected_tasks)]
         except Exception as ex:  # noqa
             out['sel'] = err_obs(ex)
-        out['pos'] = sorted([t.name, list(t.pos_arg_val)] for t in tasks
+        out['pos'] = sorted([t.name, [unsub(v) for v in t.pos_arg_val]] for t in tasks
                             if t.pos_arg is not None and t.pos_arg_val is not None)
     except Exception as ex:  # noqa
         out['sel'] = ['exc', type(ex).__name__ + ':' + str(ex)[:80]]
@@ -204,7 +253,7 @@ def _reporter_class():
 
 def classify_stderr(err):
     if 'invalid parameter: "' in err:
-        return ['notFound', err.split('invalid parameter: "', 1)[1].split('". Must be', 1)[0]]
+        return ['notFound', unsub(err.split('invalid parameter: "', 1)[1].split('". Must be', 1)[0])]
     if 'Error parsing Task' in err:
         return ['optErr']
     if 'Cyclic/recursive' in err:
@@ -230,6 +279,7 @@ def impl_cli(case, workdir):
             os.remove(p)
     old = os.getcwd()
     os.chdir(workdir)
+    _ROOT[0] = os.path.realpath(workdir)
     events = []
     del _REC[:]
     out_s, err_s = io.StringIO(), io.StringIO()
@@ -237,9 +287,9 @@ def impl_cli(case, workdir):
         with open(SRC_FILE, 'w') as f:
             f.write('src')
         for full, d, grp, is_group in flat_defs(case):
-            for tg in ([] if is_group else list(d.get('targets', [])) + list(d.get('file_dep', []))):
+            for tg in ([] if is_group else mtargets(d) + mfile_dep(d)):
                 # --single drops the implicit task_dep on the producer of a file_dep: the file must exist anyway
-                with open(tg, 'w') as f:
+                with open(sub(tg), 'w') as f:
                     f.write('pre')
         ns = build_namespace(case, events)
         # doit's own reporters write to the stream bound at import time (the real stdout): send them to a file
@@ -253,9 +303,9 @@ def impl_cli(case, workdir):
         else:
             rep_opt = ['-r', reporter] if case.get('reporter_via') != 'long' else ['--reporter=' + reporter]
         if case.get('default') is not None:
-            cfg['default_tasks'] = list(case['default'])
+            cfg['default_tasks'] = [sub(a) for a in case['default']]
         ns['DOIT_CONFIG'] = cfg
-        argv = ['run'] + rep_opt + (['--single'] if case.get('single') else []) + list(case['argv'])
+        argv = ['run'] + rep_opt + (['--single'] if case.get('single') else []) + [sub(a) for a in case['argv']]
         with contextlib.redirect_stdout(out_s), contextlib.redirect_stderr(err_s):
             try:
                 code = DoitMain(ModuleTaskLoader(ns)).run(argv)
@@ -311,7 +361,7 @@ def lit_pattern(pat):
     """generated PATTERNS stay inside what the model's glob supports (`*`, `?`, literals): a `[` or `]` taken over from
     a task name becomes `?` (still matches that name)"""
     return pat.replace('[', '?').replace(']', '?')
-TARGET_POOL = ['o1.out', 'o2.out', 'gen.c', 'a', 'b', 't1', 'build', 'p', 'q.o', 'ab:c']
+TARGET_POOL = ['o1.out', 'o2.out', 'gen.c', 'a', 'b', 't1', 'build', 'p', 'q.o', 'ab:c', 'x=1.o']
 
 
 def all_names(case):
@@ -324,7 +374,7 @@ def edges_of(case):
     names = [f[0] for f in defs]
     prod = {}
     for full, d, grp, is_group in defs:
-        for tg in ([] if is_group else d.get('targets', [])):
+        for tg in ([] if is_group else mtargets(d)):
             prod.setdefault(tg, full)
     g = {}
     for full, d, grp, is_group in defs:
@@ -341,7 +391,7 @@ def edges_of(case):
             deps += ['%s:%s' % (full, s['name']) for s in d['subs']]
         else:
             deps += list(d.get('setup', [])) + list(d.get('calc_dep', []))
-            deps += [prod[f] for f in d.get('file_dep', []) if f in prod]
+            deps += [prod[f] for f in mfile_dep(d) if f in prod]
         g[full] = deps
     return g
 
@@ -371,7 +421,7 @@ def valid_case(case):
         return False
     seen_t = set()
     for full, d, grp, is_group in flat_defs(case):
-        for tg in d.get('targets', []) if not is_group else []:
+        for tg in mtargets(d) if not is_group else []:
             if tg in seen_t:
                 return False
             seen_t.add(tg)
@@ -380,6 +430,16 @@ def valid_case(case):
                 if '*' not in dep and dep not in names:
                     return False
     return is_acyclic(edges_of(case))
+
+
+def respell(rng, entry):
+    """another written form of the same file (entry: a str or {'path': ...})"""
+    base = mstr(entry)
+    if base.startswith(ABS + '/'):
+        base = base[len(ABS) + 1:]
+    while base.startswith('./'):
+        base = base[2:]
+    return rng.choice([base, './' + base, ABS + '/' + base, {'path': base}, {'path': './' + base}, './/' + base])
 
 
 def gen_taskdef(rng, name, earlier, targets_free, allow_attrs=True):
@@ -400,6 +460,10 @@ def gen_taskdef(rng, name, earlier, targets_free, allow_attrs=True):
             d['task_dep'].append(lit_pattern(pat))
     if targets_free and rng.random() < 0.35:
         d['targets'] = [targets_free.pop(rng.randrange(len(targets_free)))]
+        if rng.random() < 0.2:
+            d['targets'] = [respell(rng, d['targets'][0])]
+            if rng.random() < 0.3:
+                d['pathform'] = 'tuple'
     if rng.random() < 0.3:
         d['params'] = rng.sample(sorted(PARAMS), rng.choice([1, 1, 2, 3]))
     if rng.random() < 0.12:
@@ -444,14 +508,17 @@ def gen_tasks(rng, delayed_ok=False):
     # file_dep on targets of other tasks (implicit task_dep) and on the plain source file
     defs = flat_defs(case)
     tg_all = [(tg, full) for full, d, grp, is_group in defs if not is_group for tg in d.get('targets', [])]
+    spell = rng.random() < 0.25       # this task set writes some file names in another form
     for full, d, grp, is_group in defs:
         if is_group or d.get('utd') or d.get('delayed'):
             continue
         if tg_all and rng.random() < 0.3:
             for tg, prod in rng.sample(tg_all, min(len(tg_all), rng.choice([1, 1, 2, 3]))):
                 if prod != full:
+                    if spell and rng.random() < 0.5:
+                        tg = respell(rng, tg)       # same or another spelling of the producer's target
                     d['file_dep'].append(tg)
-                    if not is_acyclic(edges_of(case)):
+                    if not is_acyclic(edges_of(case)) or not valid_case(case):
                         d['file_dep'].remove(tg)
         if rng.random() < 0.1:
             d['file_dep'].append(SRC_FILE)
@@ -472,7 +539,7 @@ def option_tokens(rng, params, valid=True):
             forms.append(['-' + p['short']] + (['V%d' % rng.randrange(3)] if is_val else []))
             if is_val:
                 forms.append(['-%sW' % p['short']])
-                forms.append(['-' + p['short'], rng.choice(['-f', '--', 'a', 't1'])])   # a value that looks like something else
+                forms.append(['-' + p['short'], rng.choice(['-f', '--', 'a', 't1', 'a=b', 'k=1', ''])])   # a value that looks like something else
             else:
                 others = [PARAMS[q] for q in params if 'short' in PARAMS[q] and q != p['name']]
                 if others:
@@ -481,7 +548,7 @@ def option_tokens(rng, params, valid=True):
         if 'long' in p:
             if is_val:
                 forms.append(['--%s=%s' % (p['long'], rng.choice(['1', '', 'a=b']))])
-                forms.append(['--' + p['long'], 'LV'])
+                forms.append(['--' + p['long'], rng.choice(['LV', 'LV', 'a=b'])])
             else:
                 forms.append(['--' + p['long']])
         toks += rng.choice(forms)
@@ -494,12 +561,19 @@ def name_like_tokens(rng, case):
     """tokens standing at a name position: names, groups, sub-tasks, targets, patterns (0..n matches), unknown"""
     defs = flat_defs(case)
     names = [f[0] for f in defs]
-    targets = [tg for full, d, grp, is_group in defs if not is_group for tg in d.get('targets', [])]
+    targets = [tg for full, d, grp, is_group in defs if not is_group for tg in mtargets(d)]
     r = rng.random()
+    if r < 0.05:
+        # command-line variables (removed by DoitMain.process_args before selection) and the empty word
+        return rng.choice(['k=v', 'x=1', 'a=', rng.choice(names) + '=1', 'a.b=1', 'x=1.o', 'k=', ''])
     if r < 0.5:
         return rng.choice(names)
     if r < 0.6 and targets:
-        return rng.choice(targets)
+        tg = rng.choice(targets)
+        if any(isinstance(e, dict) or e.startswith(('./', ABS)) for f in defs for e in (f[1].get('targets') or [])) \
+                and rng.random() < 0.4:
+            return mstr(respell(rng, tg))      # the file under another spelling: only the declared string selects
+        return tg
     if r < 0.87:
         base = rng.choice(names)
         return lit_pattern(rng.choice(
